@@ -65,6 +65,11 @@ func (b *backend) Checkpoint(data []byte) error {
 	return nil
 }
 func (b *backend) EnsureBefore(time.Duration) {}
+func (b *backend) count() int {
+	b.mu.Lock()
+	defer b.mu.Unlock()
+	return b.n
+}
 func (b *backend) bytes() []byte {
 	b.mu.Lock()
 	defer b.mu.Unlock()
